@@ -93,3 +93,20 @@ prop('C08', '1D and 2D tessellations depend only on the active coordinates', ['M
   pe('unit_thickness', 'prism_volume', 'T02.3/T08 unit thickness: the measure of the prism is the measure of its base'),
   pe('slab_centroid', 'slab_centroid', 'T08 the centroid of the unit slab is 0 along unused axes'),
 ])
+BF = ('MVoro.Proofs.BestFirst', 'MVoro.BestFirst')
+def bf(name, orig, doc): return (name, BF[0], BF[1], orig, doc)
+prop('C17', 'neighbour candidates are enumerated completely and in order of distance', ['MVoro.Proofs.BestFirst', 'MVoro.Proofs.Periodic'], [
+  bf('every_leaf_once_per_initial_entry', 'bestFirst_complete', 'T17.1a with enough fuel every leaf below the queue is emitted exactly once, with the shift of the entry it came from — for ANY tie-breaking that pops a minimal entry (covers BinaryHeap)'),
+  bf('emitted_in_key_order', 'bestFirst_sorted', 'T17.1b the emitted keys are non-decreasing whenever parent keys are lower bounds of their children (LB)'),
+  bf('each_generator_once_per_shift', 'bestFirst_initQueue', 'T17.3 from the initial queue (root children under every shift) the output is a permutation of {generators} x {shifts}'),
+  bf('visit_count', 'visits_per_generator', 'T17.3 hence every generator is visited exactly #shifts times (3^d periodic, 1 otherwise)'),
+  bf('self_first', 'self_first', 'T17.3 the unique key-0 pair (the generator itself, zero shift) is emitted first when all other keys are positive (distinct generators)'),
+  bf('first_min_is_valid_choice', 'argminFirst_valid', 'the executable tie-breaking of the driver (first minimum) is one of the admissible choices'),
+  bf('clamp_is_closest_point', 'clamp_lower_bound', 'T17.2 one axis: the clamped coordinate is at least as close as any point of the interval'),
+  bf('envelope_distance_lower_bound', 'envDist2_le_dist2', 'T17.2 the envelope key is a lower bound of the squared distance to every point inside the envelope'),
+  bf('envelope_distance_nested', 'envDist2_nested', 'T17.2 and of the key of every nested envelope'),
+  bf('envelope_key_has_LB', 'LB_boxKey', 'T17.2 so the key the code uses has the lower-bound property on any tree whose parent envelopes contain their children (rstar invariant, checked on every dumped tree)'),
+  bf('leaf_key_is_distance', 'boxKey_leaf', 'T17.2 for a leaf the key is the squared distance to the shifted query point'),
+  pe('query_shift_is_image', 'shift_equiv_image', 'T06.4 searching with the query shifted by s looks at the image shifted by -s'),
+  pe('reported_shift', 'reportedShift_spec', 'T06.4/T17.3 the reported shift is absent iff zero and has components in {-w,0,w}'),
+])
